@@ -10,6 +10,9 @@
 // accepted by q=dce | simp | lower | pipe | echo and printed back in the same textual form; in the F section a
 // boolean variable is written b<i>; L may list the ids of boolean assertions.
 //
+// Array statements (cfgtext.hpp: ainit, astore, astorer, aload, aassign) are accepted by the same queries and by
+// q=clone (cfg::clone(), every statement copied through statement::clone) and printed back in the same textual form.
+//
 // Answers:
 //   q=live   b0:L{live-out}D{dead_exit} b1:...                 (sets of variable numbers, sorted)
 //   q=crawl  b0:[id:{vars};id:{vars}] b1:...                   (assertion ids sorted; T = top)
@@ -36,6 +39,10 @@ static long vnum(program &P, const z_var &v) {
 static long boolnum(program &P, const z_var &v) {
   for (size_t i = 0; i < P.bools.size(); ++i) if (P.bools[i].index() == v.index()) return (long)i;
   return -1;
+}
+static std::string an(program &P, const z_var &v) {
+  for (size_t i = 0; i < P.arrs.size(); ++i) if (P.arrs[i].index() == v.index()) return std::to_string(i);
+  return "-1";
 }
 static std::string bn(program &P, const z_var &v) { return std::to_string(boolnum(P, v)); }
 static std::string show_set(program &P, const varset_t &s) {
@@ -110,6 +117,28 @@ static std::string show_stmt(program &P, const stmt_t &s) {
     auto &a = static_cast<const bb_t::int_cast_t &>(s);
     if (a.op() == crab::cfg::CAST_ZEXT && boolnum(P, a.src()) >= 0) return "bzext " + std::to_string(vnum(P, a.dst())) + " " + bn(P, a.src());
     return "?";
+  }
+  if (s.is_arr_init()) {
+    auto &a = static_cast<const bb_t::arr_init_t &>(s);
+    if (!a.elem_size().is_constant()) return "?";
+    return "ainit " + an(P, a.array()) + " " + zs(a.elem_size().constant()) + " " + show_exp(P, a.lb_index()) + " " + show_exp(P, a.ub_index()) + " " + show_exp(P, a.val());
+  }
+  if (s.is_arr_write()) {
+    auto &a = static_cast<const bb_t::arr_store_t &>(s);
+    if (!a.elem_size().is_constant()) return "?";
+    std::string h = an(P, a.array()) + " " + zs(a.elem_size().constant()) + " ";
+    if (a.lb_index().equal(a.ub_index()))
+      return "astore " + h + (a.is_strong_update() ? "1 " : "0 ") + show_exp(P, a.lb_index()) + " " + show_exp(P, a.value());
+    return "astorer " + h + show_exp(P, a.lb_index()) + " " + show_exp(P, a.ub_index()) + " " + show_exp(P, a.value());
+  }
+  if (s.is_arr_read()) {
+    auto &a = static_cast<const bb_t::arr_load_t &>(s);
+    if (!a.elem_size().is_constant()) return "?";
+    return "aload " + std::to_string(vnum(P, a.lhs())) + " " + an(P, a.array()) + " " + zs(a.elem_size().constant()) + " " + show_exp(P, a.index());
+  }
+  if (s.is_arr_assign()) {
+    auto &a = static_cast<const bb_t::arr_assign_t &>(s);
+    return "aassign " + an(P, a.lhs()) + " " + an(P, a.rhs());
   }
   return "?";
 }
@@ -205,6 +234,7 @@ static std::string eval(const std::vector<std::string> &line) {
   if (q == "simp") { P.cfg->simplify(); return show_cfg(P); }
   if (q == "lower") { do_lower(P, lower_ids); return show_cfg(P); }
   if (q == "pipe") { do_lower(P, lower_ids); do_dce(P); P.cfg->simplify(); return show_cfg(P); }
+  if (q == "clone") { P.cfg.reset(P.cfg->clone()); return show_cfg(P); }
   if (q == "echo") return show_cfg(P);
   return "HARNESS-ERROR";
 }
